@@ -140,6 +140,23 @@ struct Step {
     free_result: bool,
 }
 
+/// a byte source that hands out at most `chunk` bytes per call (short reads without errors)
+struct Chunked<'a> {
+    data: &'a [u8],
+    chunk: usize,
+    calls: usize,
+}
+
+impl vm_memory::ReadVolatile for Chunked<'_> {
+    fn read_volatile<B: vm_memory::bitmap::BitmapSlice>(&mut self, buf: &mut VolatileSlice<B>) -> Result<usize, vm_memory::volatile_memory::Error> {
+        self.calls += 1;
+        let n = buf.len().min(self.chunk).min(self.data.len());
+        let w = buf.write(&self.data[..n], 0)?;
+        self.data = &self.data[w..];
+        Ok(w)
+    }
+}
+
 fn gen_nlen(room: usize) -> usize {
     let c = cx();
     (match c.a(9) {
@@ -498,18 +515,22 @@ fn one_op<B: BmCtl>(w: &mut GmWorld<B>, tracked: bool, step: usize) -> Step {
                 _ => 1 + cx().a(count as u32) as usize,
             };
             let data = compl(w, addr, m);
-            let mut src = &data[..];
             let moved = room.min(count).min(m);
+            // a plain byte slice, or a source that delivers short reads (as a socket or pipe does)
+            let chunk = if cx().a(2) == 0 { usize::MAX } else { 1 + cx().a(40) as usize };
+            let mut plain = &data[..];
+            let mut chunked = Chunked { data: &data[..], chunk, calls: 0 };
+            let tag = if chunk == usize::MAX { "&[u8]".to_string() } else { format!("short-reading source (<= {} bytes per call)", chunk) };
             if kind == 8 {
-                st.kind = "read_volatile_from(&[u8])";
-                st.desc = format!("read_volatile_from({:#x}, &[u8;{}], {})", addr, m, count);
-                st.got = go_n(catch(|| w.gm.read_volatile_from(ga, &mut src, count)));
+                st.kind = "read_volatile_from(stream)";
+                st.desc = format!("read_volatile_from({:#x}, {} of {} bytes, {})", addr, tag, m, count);
+                st.got = if chunk == usize::MAX { go_n(catch(|| w.gm.read_volatile_from(ga, &mut plain, count))) } else { go_n(catch(|| w.gm.read_volatile_from(ga, &mut chunked, count))) };
                 st.exp = Some(if room == 0 { GO::Iga } else { GO::Count(moved) });
                 st.effect = if room == 0 { Effect::NoWrite } else { Effect::Write };
             } else {
-                st.kind = "read_exact_volatile_from(&[u8])";
-                st.desc = format!("read_exact_volatile_from({:#x}, &[u8;{}], {})", addr, m, count);
-                st.got = go_u(catch(|| w.gm.read_exact_volatile_from(ga, &mut src, count)));
+                st.kind = "read_exact_volatile_from(stream)";
+                st.desc = format!("read_exact_volatile_from({:#x}, {} of {} bytes, {})", addr, tag, m, count);
+                st.got = if chunk == usize::MAX { go_u(catch(|| w.gm.read_exact_volatile_from(ga, &mut plain, count))) } else { go_u(catch(|| w.gm.read_exact_volatile_from(ga, &mut chunked, count))) };
                 st.exp = Some(if room == 0 { GO::Iga } else if moved < count { GO::Partial(count, moved) } else { GO::Unit });
                 st.effect = if room == 0 { Effect::NoWrite } else if moved < count { Effect::PartialFail } else { Effect::Write };
             }
